@@ -1,7 +1,8 @@
 import OntVerif.Model.P2PMsg
 /-! Line driver for C24.
-  `D <cmdhex> <payloadhex>`            decode one payload of the given (zero-trimmed) command
-  `F <magic> <streamhex> <ckhex>`      `ReadMessage` on a raw stream; `ck` = checksum of the payload bytes (supplied by Go)
+  `D <cmdhex> <payloadhex> [o:…]`            decode one payload of the given (zero-trimmed) command
+  `F <magic> <streamhex> <ckhex> [o:…]`      `ReadMessage` on a raw stream; `ck` = checksum of the payload bytes (supplied by Go)
+  oracle field (values of the calls out of the package, supplied by Go): `o:pk=<in>:<canon|!>,…/kad=<b>/sig=<b>/exp=<b>/hdr=<unread>:<n>:<re>,<unread>:!,…`
   `E addr <entries>` / `E inv <ty> <hashes>`  encode a message built from fields
   `O <k>`                              explored only (a signed offline-witness message with k votes): the model answers `opaque`
 -/
@@ -30,14 +31,17 @@ def renderMsg : Msg → String
   | .version p =>
       s!"version v={p.version} sv={p.services} ts={p.timestamp} sp={p.syncPort} hp={p.httpInfoPort} cp={p.consPort} cap={hexW p.cap} nonce={p.nonce} sh={p.startHeight} relay={p.relay} cons={boolW p.isConsensus} soft={hexW p.softVersion}"
   | .members l => s!"members n={l.length} {semi (l.map fun p => hexW p.1 ++ "," ++ hexW p.2)}"
-  | .membersReqSeed f t => s!"getmembers from={hexW f} to={hexW t} ts=0"
-  | .headersEmpty => "headers n=0"
+  | .membersReq f t ts pk sg => s!"getmembers from={hexW f} to={hexW t} ts={ts} pk={hexW pk} sig={hexW sg}"
+  | .headers hs => s!"headers n={hs.length}"
+  | .consensus ver prev h bk ts data owner sg =>
+      s!"consensus v={ver} prev={hexW prev} h={h} bk={bk} ts={ts} data={hexW data} owner={hexW owner} sig={hexW sg}"
+  | .updateKadId pk => s!"updatekadid pk={hexW pk}"
   | .unknown c p => s!"unknown cmd={hexW c} p={hexW p}"
   | .opaque _ => "opaque"
 
 def renderErr : DErr → String
   | .eof => "err:eof" | .ueof => "err:ueof" | .irregular => "err:irregular"
-  | .magic => "err:magic" | .toolong => "err:toolong" | .checksum => "err:checksum"
+  | .magic => "err:magic" | .toolong => "err:toolong" | .checksum => "err:checksum" | .other => "err:other"
 
 def renderOk (m : Msg) (payload : Bytes) : String :=
   match m with
@@ -46,14 +50,14 @@ def renderOk (m : Msg) (payload : Bytes) : String :=
     let re := encode m
     s!"ok {renderMsg m} re={hexW re} same={boolW (re == payload)}"
 
-def runD (v : Variant) (cmd p : Bytes) : String :=
-  match decodeAll v cmd p with
+def runD (O : Oracle) (cmd p : Bytes) : String :=
+  match decodeAll O cmd p with
   | .panic => "PANIC"
-  | .err e => renderErr e
+  | .err e _ => renderErr e
   | .ok (m, _) => renderOk m p
 
-def runF (v : Variant) (magic : Nat) (stream ck : Bytes) : String :=
-  match readMessage v magic (fun _ => ck) stream with
+def runF (O : Oracle) (magic : Nat) (stream ck : Bytes) : String :=
+  match readMessage O magic (fun _ => ck) stream with
   | .panic => "PANIC"
   | .err e => renderErr e
   | .ok r =>
@@ -61,10 +65,37 @@ def runF (v : Variant) (magic : Nat) (stream ck : Bytes) : String :=
     | .opaque _ => "opaque"
     | _ => renderOk r.msg ((stream.drop 24).take r.len) ++ s!" len={r.len} rest={r.rest.length}"
 
-def both (f : Variant → String) : String :=
-  let a := f .asShipped
-  let b := f .sound
-  if a == b then a else a ++ " ## " ++ b
+/-- nothing supplied: every call out of the package fails -/
+def noOracle : Oracle := ⟨fun _ => none, fun _ => false, fun _ _ _ => false, fun _ => true, fun _ => none⟩
+
+def parsePk (s : String) : Option (Bytes × Option Bytes) :=
+  match s.splitOn ":" with
+  | [i, o] => match unhex i with
+    | some i => if o == "!" then some (i, none) else (unhex o).map (fun o => (i, some o))
+    | none => none
+  | _ => none
+
+def parseHdr (s : String) : Option (Nat × Option (Nat × Bytes)) :=
+  match s.splitOn ":" with
+  | [u, "!"] => u.toNat?.map (fun u => (u, none))
+  | [u, n, re] => match u.toNat?, n.toNat?, unhex re with
+    | some u, some n, some re => some (u, some (n, re))
+    | _, _, _ => none
+  | _ => none
+
+def applyGroup (O : Oracle) (g : String) : Option Oracle :=
+  match g.splitOn "=" with
+  | ["pk", v] => ((v.splitOn ",").mapM parsePk).map fun t =>
+      { O with pk := fun b => match t.find? (·.1 == b) with | some (_, r) => r | none => none }
+  | ["kad", v] => some { O with kadOk := fun _ => v == "1" }
+  | ["sig", v] => some { O with sigOk := fun _ _ _ => v == "1" }
+  | ["exp", v] => some { O with expired := fun _ => v == "1" }
+  | ["hdr", v] => ((v.splitOn ",").mapM parseHdr).map fun t =>
+      { O with hdr := fun b => match t.find? (·.1 == b.length) with | some (_, r) => r | none => none }
+  | _ => none
+
+def parseOracle (s : String) : Option Oracle :=
+  if s.startsWith "o:" then (((s.drop 2).toString).splitOn "/").foldlM applyGroup noOracle else none
 
 def chunks (k : Nat) : Nat → Bytes → List Bytes
   | 0, _ => []
@@ -82,12 +113,20 @@ def handle (line : String) : String :=
   match fields line with
   | ["D", c, p] =>
     match unhex c, unhex p with
-    | some c, some p => both (fun v => runD v c p)
+    | some c, some p => runD noOracle c p
     | _, _ => "bad-op"
+  | ["D", c, p, o] =>
+    match unhex c, unhex p, parseOracle o with
+    | some c, some p, some O => runD O c p
+    | _, _, _ => "bad-op"
   | ["F", m, s, k] =>
     match m.toNat?, unhex s, unhex k with
-    | some m, some s, some k => both (fun v => runF v m s k)
+    | some m, some s, some k => runF noOracle m s k
     | _, _, _ => "bad-op"
+  | ["F", m, s, k, o] =>
+    match m.toNat?, unhex s, unhex k, parseOracle o with
+    | some m, some s, some k, some O => runF O m s k
+    | _, _, _, _ => "bad-op"
   | ["O", _] => "opaque"     -- offline-witness round trip: explored by the harness only (signatures)
   | ["E", "addr", es] =>
     let parts := if es == "-" then [] else es.splitOn ";"
